@@ -69,7 +69,8 @@ func c03(w *core.World, r *core.Report) {
 			if !(isEffectCall(c) || core.CalleeIs(c, kApplyIntent, "datastore/types.Transaction.StartRollbackTimer")) {
 				continue
 			}
-			ok := guardedByHasErrorsOf(c, valCalls[0], false)
+			ok := false
+			core.WithHost(f, func() { ok = guardedByHasErrorsOf(c, valCalls[0], false) })
 			r.Check(ok, "VALIDATION-GUARD", core.Site(f, "call %s", core.CalleeKey(c)), w.InstrPos(c),
 				"effect call must be reachable only through the !HasErrors() outcome of this function's validation result")
 		}
@@ -87,6 +88,9 @@ func c03(w *core.World, r *core.Report) {
 		}
 		visited[key] = true
 		for _, c := range core.Calls(f) {
+			if core.InlinedCallee(c) != nil {
+				continue // a virtually inlined helper: its calls are visited as part of f
+			}
 			callee := c.Common().StaticCallee()
 			eff := isEffectCall(c)
 			if !eff {
@@ -106,7 +110,9 @@ func c03(w *core.World, r *core.Report) {
 				}
 			}
 			site := core.Site(f, "call %s", core.CalleeKey(c))
-			if core.GuardedByValue(c, p, false) {
+			guarded := false
+			core.WithHost(f, func() { guarded = core.GuardedByValue(c, p, false) })
+			if guarded {
 				r.OK("DRYRUN-GUARD", site, w.InstrPos(c), "guarded by "+p.Name()+"==false")
 				continue
 			}
@@ -205,16 +211,11 @@ func c03(w *core.World, r *core.Report) {
 
 // guardedByHasErrorsOf: x executes only on outcome `want` of HasErrors() called on the result of validate call vc.
 func guardedByHasErrorsOf(x ssa.Instruction, vc ssa.CallInstruction, want bool) bool {
-	for _, g := range core.GuardsOf(x) {
-		v, neg := core.StripNot(g.If.Cond)
-		val := g.CondTrue()
-		if neg {
-			val = !val
-		}
-		if val != want {
+	for _, a := range core.GuardAtoms(x) {
+		if a.True != want {
 			continue
 		}
-		for _, oc := range core.OriginCalls(v) {
+		for _, oc := range core.OriginCalls(a.Cond) {
 			if !core.CalleeIs(oc, kHasErrors) {
 				continue
 			}
@@ -417,8 +418,8 @@ func predict(w *core.World, r *core.Report, low *ssa.Function) {
 	var dryIf *ssa.If
 	for _, i := range core.Ifs(low) {
 		v, _ := core.StripNot(i.Cond)
-		if v == dry {
-			dryIf = i
+		if v == dry || (dry != nil && core.HasOrigin(v, dry)) {
+			dryIf = i // the flag itself, or the parameter of a phase function it was handed to
 		}
 	}
 	if dryIf == nil {
